@@ -136,12 +136,13 @@ def dead (r : Rec) (now : Nat) : Bool := r.flag == flagDelete || isExpired r.ttl
 
 def fileGet? (fs : List File) (fid : Nat) : Option File := fs.find? (·.fid == fid)
 
+/-- a record written at `off` of file `fid`. `fs` is the *directory*: when the file is not in it — the
+active file was removed by a `Merge` that found nothing to rewrite, while `db.ActiveFile` still holds
+it open — the write goes to the unlinked file and never shows in the directory (such a record is lost
+at the next `Open`). Every other writer (`rotate`, `openDB`, `rewrite`) has ensured the file first. -/
 def fileAppend (fs : List File) (fid off : Nat) (r : Rec) : List File :=
   if fs.any (·.fid == fid) then fs.map fun f => if f.fid == fid then { f with recs := f.recs ++ [(off, r)] } else f
-  else
-    -- keep ascending fid order
-    let (lo, hi) := fs.partition (·.fid < fid)
-    lo ++ [{ fid := fid, recs := [(off, r)] }] ++ hi
+  else fs
 
 def fileEnsure (fs : List File) (fid : Nat) : List File :=
   if fs.any (·.fid == fid) then fs
